@@ -93,10 +93,11 @@ func init() {
 }
 
 // C16 (third sentence): modules found BY NAME in the current directory.
-//   cwdload <ops> <n> (<filenamehex> <texthex>){n}
-//     ops, comma separated: W<i> write text i as file i into a fresh, empty working directory; L<i> Modules.Parse(text i, name i);
-//     R<hex> Modules.Read(name); G<hex> Modules.GetModule(name); P Process
-//   output: JSON {"loads":[...], "errors":[...]} (error strings in full)
+//
+//	cwdload <ops> <n> (<filenamehex> <texthex>){n}
+//	  ops, comma separated: W<i> write text i as file i into a fresh, empty working directory; L<i> Modules.Parse(text i, name i);
+//	  R<hex> Modules.Read(name); G<hex> Modules.GetModule(name); P Process
+//	output: JSON {"loads":[...], "errors":[...]} (error strings in full)
 func init() {
 	handlers["cwdload"] = func(toks []string) string {
 		ops := toks[0]
@@ -160,4 +161,3 @@ func init() {
 		return string(b)
 	}
 }
-
